@@ -85,3 +85,5 @@ open Csproto
 #print axioms Csproto.Bridge.PackedFuncs.DecodePackedSint64_refines
 #print axioms Csproto.Bridge.PackedFuncs.loop_eqT
 #print axioms Csproto.Bridge.PackedFuncs.DecodePackedSint32_refines
+#print axioms Csproto.Bridge.PackedFuncs.loop_eqU
+#print axioms Csproto.Bridge.PackedFuncs.DecodePackedUint32_refines
